@@ -67,6 +67,9 @@ _edit_case = docexp.make_run_case(ORACLE)
 
 
 def run_case(case: dict) -> core.CaseResult:
+    if case.get('kind') == 'move':
+        from . import moves
+        return moves.run_case(case)
     ops_ = case.get('ops') or []
     if ops_ and all(op[0] in ('claim', 'claimseq', 'claimseq1') for op in ops_) and any(op[0] == 'claimseq1' or op[2] == 'auto_claim_comments' for op in ops_):
         from .. import claims
@@ -97,6 +100,16 @@ def main(run: core.Run) -> None:
     run.bounds['class_corpus'] = 'one minimal and one full document per directive class (38 documents), depth 1'
     docexp.bfs(run, ORACLE, items, 'depth-1 corpus')
     docexp.bfs(run, ORACLE, d2, 'depth-2 corpus')
+    # histories of three steps confined to one repeated field and its aliasing views
+    fc = docexp.focus_cases(3, 'basic', docexp.FOCUS_SUBJECTS[:1] if tier == 'quick' else None)
+    docexp.bfs(run, ORACLE, fc, 'depth-3 single-field histories')
+    run.bounds['depth3'] = f'{len(fc)} single-field subjects (one repeated field + its views), in-range arguments'
+    # two-document histories: pop from one parse, insert into another
+    from . import moves
+    mv = [{'kind': 'move', 'text': c['text'], 'mode': c['mode']} for c in docexp.corpus(docs.L_EDIT, 2 if tier == 'quick' else 3, depth=1, modes=(True, False))]
+    mv += [{'kind': 'move', 'text': c['text'], 'mode': True} for c in docexp.class_cases(1)]
+    run.run_cases(run_case, mv, 'moves between two documents', chunk=4)
+    run.bounds['moves'] = f'{len(mv)} documents: every element of every raw list popped from one parse and inserted at the start / middle / end of the same list of another parse'
     # comment-attribution calls to a fixpoint per document (this is where a placeholder left behind its items shows)
     from .. import claims
     n = 3 if tier == 'quick' else 4
